@@ -1690,8 +1690,11 @@ class WassersteinVectorizer(BaseEstimator, TransformerMixin):
 
                     lot_dimension = reference_size * vectors.shape[1]
                     block_size = max(1, memory_size // (lot_dimension * 8))
-                    u, s, v = scipy.sparse.linalg.svds(X, k=1)
-                    # ARPACK starts from a random vector, so the sign of the singular vector is arbitrary;
+                    # ARPACK starts from a random vector: draw it from random_state, so that the singular vector -
+                    # also when the leading singular value is not simple - is the same for the same seed
+                    svd_start = random_state.uniform(-1.0, 1.0, size=min(X.shape))
+                    u, s, v = scipy.sparse.linalg.svds(X, k=1, v0=svd_start)
+                    # the sign of a singular vector is arbitrary;
                     # X is non-negative, so take the non-negative orientation: the reference (and hence the
                     # fitted model) is then the same for the same random_state
                     if v.sum() < 0:
@@ -2395,8 +2398,11 @@ class SinkhornVectorizer(BaseEstimator, TransformerMixin):
 
                 lot_dimension = reference_size * vectors.shape[1]
                 block_size = max(1, memory_size // (lot_dimension * 8))
-                u, s, v = scipy.sparse.linalg.svds(X, k=1)
-                # ARPACK starts from a random vector, so the sign of the singular vector is arbitrary;
+                # ARPACK starts from a random vector: draw it from random_state, so that the singular vector -
+                # also when the leading singular value is not simple - is the same for the same seed
+                svd_start = random_state.uniform(-1.0, 1.0, size=min(X.shape))
+                u, s, v = scipy.sparse.linalg.svds(X, k=1, v0=svd_start)
+                # the sign of a singular vector is arbitrary;
                 # X is non-negative, so take the non-negative orientation: the reference (and hence the
                 # fitted model) is then the same for the same random_state
                 if v.sum() < 0:
@@ -2915,8 +2921,11 @@ class WassersteinVectorizerOld(BaseEstimator, TransformerMixin):
 
                 lot_dimension = reference_size * vectors.shape[1]
                 block_size = max(1, memory_size // (lot_dimension * 8))
-                u, s, v = scipy.sparse.linalg.svds(X, k=1)
-                # ARPACK starts from a random vector, so the sign of the singular vector is arbitrary;
+                # ARPACK starts from a random vector: draw it from random_state, so that the singular vector -
+                # also when the leading singular value is not simple - is the same for the same seed
+                svd_start = random_state.uniform(-1.0, 1.0, size=min(X.shape))
+                u, s, v = scipy.sparse.linalg.svds(X, k=1, v0=svd_start)
+                # the sign of a singular vector is arbitrary;
                 # X is non-negative, so take the non-negative orientation: the reference (and hence the
                 # fitted model) is then the same for the same random_state
                 if v.sum() < 0:
